@@ -69,7 +69,8 @@ class Point:
 class Run:
     """One execution: replays ``prefix`` then takes the first allowed alternative at later points."""
 
-    def __init__(self, prefix, max_points, shuffle_alts=None, track_prob=True):
+    def __init__(self, prefix, max_points, shuffle_alts=None, track_prob=True, observer=None):
+        self.observer = observer  # callable(kind, payload) invoked at draw points (read-only observation)
         self.prefix = prefix  # list of (taken, n)
         self.points = []
         self.calls = []  # resolved results per random call, for standalone replay
@@ -203,6 +204,8 @@ def _d_choice(seq):
     n = len(seq)
     if n == 0:
         raise IndexError("Cannot choose from an empty sequence")
+    if run.observer is not None:
+        run.observer("choice", seq)
     k = run.choose(n, None, "choice")
     run.calls.append(("choice", k))
     return seq[k]
@@ -413,14 +416,14 @@ class Leaf:
         return self.run.plain_choices()
 
 
-def execute(body, prefix=(), max_points=10_000, shuffle_alts=None, track_prob=True):
+def execute(body, prefix=(), max_points=10_000, shuffle_alts=None, track_prob=True, observer=None):
     """Run body() once under the seam, following prefix [(taken, n), ...]."""
     global _ACTIVE
     if not _INSTALLED:
         raise InfraError("engine not installed")
     if _ACTIVE is not None:
         raise InfraError("nested exploration")
-    run = Run(list(prefix), max_points, shuffle_alts, track_prob)
+    run = Run(list(prefix), max_points, shuffle_alts, track_prob, observer)
     _ACTIVE = run
     outcome = exc = None
     cut = False
@@ -454,6 +457,17 @@ def execute_plain(body, choices, **kw):
     return execute(body, [(k, _Any(0)) for k in choices], **kw)
 
 
+def active_run():
+    return _ACTIVE
+
+
+def cut_now(reason="cut by harness"):
+    """Truncate the current execution (used by hook callbacks)."""
+    if _ACTIVE is not None:
+        _ACTIVE.cut = True
+    raise Cut(reason)
+
+
 class Stats:
     def __init__(self):
         self.leaves = 0
@@ -465,7 +479,7 @@ class Stats:
 
 
 def explore(body, on_leaf, max_points=10_000, shuffle_alts=None, track_prob=True,
-            recheck_every=0, sig=repr, max_leaves=None, stats=None):
+            recheck_every=0, sig=repr, max_leaves=None, stats=None, observer=None):
     """Stateless DFS over every resolution of every random call made by body().
 
     on_leaf(leaf) is called for every path.  Every ``recheck_every``-th leaf (all if 1) is executed
@@ -476,7 +490,7 @@ def explore(body, on_leaf, max_points=10_000, shuffle_alts=None, track_prob=True
     stack = [[]]
     while stack:
         prefix = stack.pop()
-        leaf = execute(body, prefix, max_points, shuffle_alts, track_prob)
+        leaf = execute(body, prefix, max_points, shuffle_alts, track_prob, observer)
         st.leaves += 1
         pts = leaf.run.points
         st.points += len(pts) - len(prefix)
@@ -491,7 +505,7 @@ def explore(body, on_leaf, max_points=10_000, shuffle_alts=None, track_prob=True
             raise InfraError(f"choice tree larger than the stated cap of {max_leaves} leaves")
         on_leaf(leaf)
         if recheck_every and (st.leaves % recheck_every == 0):
-            again = execute(body, leaf.run.choice_list(), max_points, shuffle_alts, track_prob)
+            again = execute(body, leaf.run.choice_list(), max_points, shuffle_alts, track_prob, observer)
             st.rechecked += 1
             if (again.run.signature() != leaf.run.signature() or again.cut != leaf.cut
                     or sig(again.outcome) != sig(leaf.outcome)
